@@ -289,7 +289,11 @@ def _task(task):
     sents = eval_sentences(L)
     out = dict(states=0, transitions=0, models=0, inconsistent=0, viol=[], sample=None)
     idx = -1
+    # thorough tier: multisets of <= 2 operations over the wide pool (worlds 0..2), multisets of exactly 3 over the quick pool (worlds 0..1)
+    ops_small = op_pool(L, 'quick')[0] if (k >= 3 and L.Meta.modal) else ops
+    ops_wide = ops
     for size in range(0, k + 1):
+        ops = ops_small if size >= 3 else ops_wide
         for combo in itertools.combinations_with_replacement(range(len(ops)), size):
             idx += 1
             if idx % nparts != part:
@@ -400,8 +404,8 @@ def run(ctx):
         states=sum(r['states'] for r in res), transitions=sum(r['transitions'] for r in res),
         traces_validated_against_impl=sum(r['states'] for r in res),
         evaluations=sum(r['transitions'] for r in res), distinct_nontrivial=sum(r['models'] for r in res),
-        rule=(f'per logic: every multiset of <= {k} model-API operations (atomic / predicate / identity / uninterpreted values at worlds 0..{1 if ctx.quick else 2}, every value '
-              'of the logic; access pairs) followed by finish(), in every order; a state is the multiset; consistent ones are evaluated on ~30 sentences per world '
+        rule=(f'per logic: every multiset of <= {k} model-API operations (atomic / predicate / identity / uninterpreted values at worlds 0..{1 if ctx.quick else 2}' + ('' if ctx.quick else ' for <= 2 operations, worlds 0..1 for 3') + ', every value '
+              'of the logic; access pairs over three worlds) followed by finish(), in every order; a state is the multiset; consistent ones are evaluated on ~30 sentences per world '
               'against the recursion over the library\'s own tables plus the documented quantifier/modal clause, the frame closure and the classical identity laws; '
               'all orders must give the same model or all be rejected; plus 3-7 fixed scenarios per logic (binary-predicate congruence over two identity classes, four-world access chains and forks) in every order'),
         finished_models_checked=sum(r['models'] for r in res), inconsistent_histories=sum(r['inconsistent'] for r in res),
